@@ -565,3 +565,64 @@ def r12_8(ctx):
                "`%s` %s" % (b.text_at(loc)[:60], "happens under `depth == 0` (the check extension at the horizon)" if at_horizon else
                "changes the remaining depth of a node away from the horizon: lines are no longer searched to the nominal depth, the values of the shallow iterations differ from the reference minimax"))
     ctx.info["R12.8"] = {"depth_writes": n}
+
+
+FAPBM = "uci::find_and_play_best_move"
+
+
+def r11_8(ctx):
+    """The move played is the last one the search sent (C11 "a mate in one is always played", C07 "hands back
+    the best move found so far"): the `go` handler polls the channel and naps between polls; when it wakes up
+    after the deadline, moves accepted and sent by the search in the meantime are still queued.  Between
+    finding the deadline passed and playing, the handler must observe the channel *empty or hung up*:
+    every path from an `out_of_time(..) == true` edge to the call that prints the best move passes the
+    `Err` edge of a `try_recv()` (or a blocking `recv` that failed).  A handler that leaves its wait loop
+    on "deadline passed and I hold some move" plays a stale one."""
+    from wa.expr import Exprs, strip_refs
+    f = ctx.facts
+    if not f.has_body(FAPBM):
+        raise AnchorMissing(FAPBM)
+    b = f.body(FAPBM)
+    ctx.note_fn(FAPBM)
+    ex = Exprs(b)
+    plays = [bb for bb, t in b.iter_calls() if (callee_of(t) or "").endswith("send_best_move_to_gui")]
+    if not plays:
+        # the printing of the move was inlined: every way out of the handler is then "playing"
+        plays = list(b.return_blocks())
+    if not plays:
+        raise ShapeNotRecognised("find_and_play_best_move: no call of send_best_move_to_gui and no return")
+    expired = []
+    empty_edges = set()
+    for s in sorted(b.normal):
+        if s not in b.reachable or b.term(s)["k"] != "switch":
+            continue
+        d = strip_refs(ex.switch_discr(s))
+        tt = b.term(s)
+        cases = dict(tt["cases"])
+        if d[0] == "discr" and strip_refs(d[1])[0] == "call" and any(strip_refs(d[1])[1].endswith(x) for x in ("::try_recv", "::recv", "::recv_timeout")):
+            # Result discriminant: 0 = Ok, 1 = Err
+            if 1 in cases:
+                empty_edges.add((s, cases[1]))
+            elif 0 in cases and b.blocks[tt["otherwise"]]["term"]["k"] != "unreachable":
+                empty_edges.add((s, tt["otherwise"]))
+    # edges that say "the clock has expired" (the call of out_of_time, its negation, a named boolean built
+    # from it, a clock object's method, or the comparison it stands for: rules/search.py::clock_test)
+    from wa.implied import implying_edges
+    from .search import clock_test
+    for s, tg, (e, truth), fresh, lastdefs in implying_edges(b, ex, lambda e, t: clock_test(e, t) is not None):
+        ct = clock_test(e, truth)
+        if ct[0] is True and (s, tg) not in expired:
+            expired.append((s, tg))
+    if not expired:
+        raise ShapeNotRecognised("find_and_play_best_move: no test of the deadline (out_of_time or its spellings)")
+    n = 0
+    for s, tg in expired:
+        for p in plays:
+            if not (tg == p or b.reaches(tg, p)):
+                continue
+            n += 1
+            stale = b.reaches(tg, p, removed_edges=empty_edges)
+            ctx.ob("find_and_play_best_move:expired#%d:queue-observed-empty-before-playing" % n, not stale, b.where(b.term_loc(s)),
+                   "after the deadline test at this line came out true, every path to `send_best_move_to_gui` sees `try_recv()` fail first (queue empty or hung up)" + ("" if not stale else
+                   ": NOT so - the handler can leave on 'deadline passed and a move in hand' while newer moves are still queued: when its nap overshoots (it always can), a move the search accepted and announced - a mate in one - is not the one played"))
+    ctx.floor("deadline tests on the way to playing a move", n, 1)
